@@ -5,7 +5,7 @@ site.migrations)". Inner and trailing stars do match zero components; only the l
 
 Mechanism: Options.compile_glob turns a leading "*" into ".*" followed by "\\.b", which requires a dot before "b".
 
-Key: precedence:section-ignored:unstructured-leading-star:zero-width
+Key: precedence:section-ignored:unstructured:zero-width-leading-star
 Exit 1 if the defect is present, 0 if absent."""
 import os
 import subprocess
